@@ -168,7 +168,37 @@ pub fn work(acc: &mut Acc, g: G, shell: Shell) {
             match r {
                 Ok(Ok((raw, min))) => {
                     acc.subword_automata += 1;
-                    check_pair(acc, &raw, &min, &format!("within-word #{key}"), &text, shell)
+                    check_pair(acc, &raw, &min, &format!("within-word #{key}"), &text, shell);
+                    // ... and as the minimized main automaton carries it (its own pool)
+                    let carried: Vec<&DFA> = c
+                        .min
+                        .verif_inputs()
+                        .filter_map(|(_, inp)| match inp {
+                            complgen::dfa::Inp::Subword { subdfa, .. } => Some(c.min.subdfas.verif_lookup(*subdfa)),
+                            _ => None,
+                        })
+                        .collect();
+                    if !carried.is_empty() {
+                        let mut syms = HashMap::new();
+                        let (graw, _) = to_generic(&raw, &mut syms);
+                        let same = carried.iter().find(|p| {
+                            let mut syms2 = syms.clone();
+                            let (gp, _) = to_generic(p, &mut syms2);
+                            equivalent(&graw.to_nfa(), &gp.to_nfa()).is_ok()
+                        });
+                        match same {
+                            Some(p) => {
+                                if **p != min {
+                                    check_pair(acc, &raw, p, &format!("within-word #{key} as carried by the minimized main automaton"), &text, shell);
+                                }
+                            }
+                            None => acc.viol.push((
+                                "language-changed".into(),
+                                format!("within-word #{key}: none of the {} within-word automata carried by the minimized main automaton accepts the language of the expression", carried.len()),
+                                J::obj(vec![("grammar", J::s(&text)), ("shell", J::s(pipe::shell_name(shell))), ("automaton", J::s(format!("within-word #{key}")))]),
+                            )),
+                        }
+                    }
                 }
                 Ok(Err(_)) => {}
                 Err(p) => acc.viol.push(("crash".into(), format!("within-word pipeline panicked: {p}"), J::obj(vec![("grammar", J::s(&text))]))),
@@ -210,6 +240,7 @@ pub fn run(tier: Tier) -> Report {
     let k = tier.pick(6, 7);
     let (km, k1, k2) = tier.pick((3, 3, 2), (4, 3, 3));
     let loop_len = tier.pick(4usize, 5usize);
+    let seq_len = tier.pick(8usize, 9usize);
     let n = crate::par::nthreads();
     let accs = crate::par::run(
         n,
@@ -221,7 +252,9 @@ pub fn run(tier: Tier) -> Report {
                 push(g);
             }
             crate::fam::nested_words(&mut |g| push(g));
+            crate::fam::word_stars(&mut |g| push(g));
             crate::fam::loop_segments(&["a", "b", "d"], loop_len, &mut |g| push(g));
+            crate::fam::segment_sequences(seq_len, &mut |g| push(g));
             crate::fam::with_defs(km, k1, k2, &mut |g| push(g));
             for n in 2..=5 {
                 crate::fam::def_dags(n, &mut |g| push(g));
@@ -291,7 +324,7 @@ pub fn run(tier: Tier) -> Report {
     rep.cov(
         "rule",
         J::s(format!(
-            "exhaustive: the C02 family (all trees <= {k} nodes over V0 as `cmd E`, the definition family, the corpus) plus hand-listed all-accepting/optional-chain shapes, nested within-word juxtapositions, and every repeated loop `cmd (S1 .. Sn)...;` of n <= {loop_len} segments from a 24-entry menu of literals, optional literals, optional runs and optional run-or-literal choices over {{a, b, d}}, compiled for bash (minimisation is shell-independent apart from command labels). For each main automaton and each within-word automaton rebuilt raw from its regex: (a) complete product raw x minimized over the shared input alphabet, (b) forward/backward reachability of every minimized state, (c) Moore partition refinement of the minimized automaton must end in singletons and its size must equal the harness's own minimisation of the raw automaton. states/transitions = product states/edges of (a)."
+            "exhaustive: the C02 family (all trees <= {k} nodes over V0 as `cmd E`, the definition family, the corpus) plus hand-listed all-accepting/optional-chain shapes, nested within-word juxtapositions, and every repeated loop `cmd (S1 .. Sn)...;` of n <= {loop_len} segments from a 24-entry menu of literals, optional literals, optional runs and optional run-or-literal choices over {{a, b, d}}, every sequence `cmd S1 .. Sn;` of n <= {seq_len} segments from {{a, b, a..., (a|b), [a]}}, compiled for bash (minimisation is shell-independent apart from command labels). For each main automaton, each within-word automaton rebuilt raw from its regex and minimized, and the copy of it that the minimized main automaton carries in its own pool: (a) complete product raw x minimized over the shared input alphabet, (b) forward/backward reachability of every minimized state, (c) Moore partition refinement of the minimized automaton must end in singletons and its size must equal the harness's own minimisation of the raw automaton. states/transitions = product states/edges of (a)."
         )),
     );
     rep.cov("exhaustive", J::Bool(true));
